@@ -49,6 +49,10 @@ def make_op(spec: dict):
     if kind == "random":
         cc, seed = spec["country"], spec["seed"]
         return lambda: lib.outcome(lambda: str(lib.IBAN.random(cc, random=random.Random(seed))))
+    if kind == "components":
+        text = spec["text"]
+        return lambda: lib.outcome(lambda: tuple(getattr(lib.IBAN(text), n) for n in (
+            "bank_code", "branch_code", "account_code", "national_checksum_digits", "account_type")))
     if kind == "iban_bank_name":
         text = spec["text"]
         return lambda: lib.outcome(lambda: lib.IBAN(text).bank_name)
@@ -110,9 +114,38 @@ def bank_for_method(m: str):
     return None
 
 
+def make_shared_ops(spec: dict):
+    """Two calls on ONE object built before the threads start (objects are documented as immutable
+    string values; sharing one between threads must be safe)."""
+    text = spec["text"]
+    obj = lib.IBAN(text, allow_invalid=True)
+    table = {
+        "validate-nat": lambda: lib.outcome(obj.validate, True),
+        "validate": lambda: lib.outcome(obj.validate),
+        "is_valid": lambda: lib.outcome(lambda: obj.is_valid),
+        "bic": lambda: lib.outcome(lambda: str(obj.bic)),
+        "components": lambda: lib.outcome(lambda: (obj.bank_code, obj.account_code, obj.national_checksum_digits)),
+        "formatted": lambda: lib.outcome(lambda: obj.formatted),
+    }
+    return [table[m] for m in spec["methods"]]
+
+
+SHARED = [
+    # valid mod 97, wrong national digits: strict call must raise, the plain one must pass
+    {"text": "BE41539007547035", "methods": ["validate-nat", "is_valid"]},
+    {"text": "BE41539007547035", "methods": ["validate-nat", "validate"]},
+    {"text": "BE68539007547034", "methods": ["validate-nat", "is_valid"]},
+    {"text": "DE89370400440532013000", "methods": ["bic", "components"]},
+    {"text": "DE89370400440532013000", "methods": ["validate-nat", "formatted"]},
+    {"text": "DE00370400440532013000", "methods": ["is_valid", "validate-nat"]},
+]
+
+
 def build_harnesses(tier: str):
     """-> list of (name, [op specs], bound, opcode)"""
     hs = []
+    for i, sp in enumerate(SHARED):
+        hs.append((f"shared:{i}:{'x'.join(sp['methods'])}", [{"op": "shared", **sp}], 1 if tier == "quick" else 2, False))
     implemented = c07.lib_methods()
     quick = tier == "quick"
     for m in implemented:
@@ -236,6 +269,18 @@ def build_harnesses(tier: str):
     # a valid text and a mistyped one carrying the same check digits (a check-digit scratch value
     # exchanged between threads would make the typo pass)
     pairs += [("parse", "parse-typo"), ("parse-gb", "parse-gb-typo"), ("parse-typo", "parse-gb-typo")]
+    ctl.update({
+        "components-de": {"op": "components", "text": valid},
+        "components-gb": {"op": "components", "text": "GB29NWBK60161331926819"},
+        "components-is": {"op": "components", "text": "IS140159260076545510730339"},
+        "components-fo": {"op": "components", "text": bases.iban_text("FO", "64600001631634")},
+        "components-dk": {"op": "components", "text": bases.iban_text("DK", "00400440116243")},
+        "generate-de2": {"op": "generate", "country": "DE", "bank": "10010010", "account": "7324931754"},
+        "generate-gb2": {"op": "generate", "country": "GB", "bank": "BARC", "account": "00001234", "branch": "200000"},
+    })
+    pairs += [("components-de", "components-gb"), ("components-gb", "components-is"),
+              ("components-fo", "components-dk"), ("components-de", "parse-gb"),
+              ("generate", "generate-de2"), ("generate-gb", "generate-gb2"), ("generate-de2", "random")]
     # calls whose national check RAISES from inside the algorithm (Norwegian check digit 10; method
     # 68 ten-digit account with a 7th digit other than 9), next to ordinary national checks: whatever
     # such a call leaves behind (a lock, a flag) must not affect the other thread
@@ -279,7 +324,12 @@ def _run_harness(args):
     part = par.Part()
     lib.IBAN("DE89370400440532013000").country  # pre-load pycountry (its real lock is never contended)
     lib.BIC("GENODEM1GLS").country
-    mk = lambda: [make_op(s) for s in specs]  # noqa: E731
+    if specs and specs[0].get("op") == "shared":
+        mk = lambda: make_shared_ops(specs[0])  # noqa: E731
+        specs_n = len(specs[0]["methods"])
+    else:
+        mk = lambda: [make_op(s) for s in specs]  # noqa: E731
+        specs_n = len(specs)
     solo_before = [op() for op in mk()]
     traced, steps = sched.warm_up(mk(), opcode)
     if traced != solo_before:
@@ -288,7 +338,7 @@ def _run_harness(args):
     outcomes, fps, states = set(), set(), set()
     transitions = 0
     last = None
-    explorer = sched.explore(mk, len(specs), bound, opcode, fingerprint)
+    explorer = sched.explore(mk, specs_n, bound, opcode, fingerprint)
     while True:
         try:
             ch, ex, res = next(explorer)
@@ -434,7 +484,10 @@ def replay(case: dict) -> dict:
             raise report.HarnessError(f"cold schedule replay is not deterministic: {res}")
         return {"ok": res[0] == solo, "expected": solo, "observed": res[0]}
     specs = case["ops"]
-    mk = lambda: [make_op(s) for s in specs]  # noqa: E731
+    if specs and specs[0].get("op") == "shared":
+        mk = lambda: make_shared_ops(specs[0])  # noqa: E731
+    else:
+        mk = lambda: [make_op(s) for s in specs]  # noqa: E731
     solo = [op() for op in mk()]
     sched.warm_up(mk(), case.get("opcode", False))
     res1 = sched.run_once(mk(), tuple(case["answers"]), opcode=case.get("opcode", False))[2]
@@ -454,7 +507,8 @@ def main(tier: str) -> int:
     bounds = {}
     for name, specs, bound, opcode in hs + [(f"cold:{a}x{b}", [0, 0], c[3], False) for c in cold
                                             for a, b in [(c[1], c[2])]]:
-        key = ("cold start, " if name.startswith("cold:") else "") + f"{len(specs)} threads, <= {bound} preemptions, {'opcode' if opcode else 'line'} granularity"
+        nthreads = len(specs[0]["methods"]) if (specs and isinstance(specs[0], dict) and specs[0].get("op") == "shared") else len(specs)
+        key = ("cold start, " if name.startswith("cold:") else "shared object, " if name.startswith("shared:") else "") + f"{nthreads} threads, <= {bound} preemptions, {'opcode' if opcode else 'line'} granularity"
         bounds[key] = bounds.get(key, 0) + 1
     run.extra.update({
         "states": int(run.stats.get("distinct_switch_points", 0)),
